@@ -16,6 +16,11 @@ def gen_cases(ctx, rng):
     for i in range(n):
         g = G.Gen(rng, G.port_base(i % 5))
         selfup = i % 3 == 2
+        if i % 3 == 1:
+            # upstream is a free-form string to the API (it is only dialled when a client connects): values that are not host:port are
+            # accepted like any other - and if a server rejects them, it must do so before anything changed
+            g.ups = g.ups + ["localhost", "nohost-noport"]
+            stats["with_upstreams_that_are_not_host_port"] = stats.get("with_upstreams_that_are_not_host_port", 0) + 1
         if selfup:
             # upstreams that are one of the proxies' own listen addresses (a proxy pointed at itself or at its neighbour): whatever the
             # server makes of such a request, an error answer must leave everything as it was. No connection is ever opened to these
